@@ -2409,9 +2409,9 @@ class Wallet(object):
             if type(public_keys[0]) is list:
                 keys_to_add = list(zip(*public_keys))
             new_ms_keys = []
-            for ms_key_cosigners in keys_to_add:
+            for n, ms_key_cosigners in enumerate(keys_to_add):
                 new_ms_keys.append(self._new_key_multisig(list(ms_key_cosigners), name, account_id, change, cosigner_id,
-                                                      network, address_index, witness_type))
+                                                      network, address_index + n, witness_type))
             return new_ms_keys if new_ms_keys else None
 
         # Check for closest ancestor in wallet
